@@ -8,7 +8,11 @@ suffix = sys.argv[3] if len(sys.argv) > 3 else ""
 d = "/tmp/seed_%s%s" % (pid, suffix)
 hint = (" Prefer a less obvious place for the change than the first function that comes to mind: a helper it relies on, a "
         "variant or subclass that shares the behaviour (e.g. a TLS flavour, another server / store / doer class the statement "
-        "also covers), an option or code path that default usage does not take, or a rarely exercised branch of the main path.") if suffix >= "c" else ""
+        "also covers), an option or code path that default usage does not take, or a rarely exercised branch of the main path.") if suffix == "c" else ""
+if suffix >= "d":
+    hint = (" Prefer a bug that only shows through state carried over from an earlier operation on the same object (a second "
+            "run / request / reopen / rebuild, an object reused after it finished, something cached on the instance or class), "
+            "or through the interaction of two features or options that each work alone.")
 print(f"""You are working in a scratch git worktree of the Python library ioflo/hio at {d} (library source under {d}/src/hio, its tests under {d}/tests). Work ONLY inside {d}. Do not read, touch or depend on /repo, /verif or any other checkout.
 
 Environment facts:
